@@ -381,7 +381,7 @@ def patThenInst (cfg : Cfg) (n : Nat) (x : XSt) (P : NPat) (keys : List Nat) :
   | some (s', c') => ({ x with s := s', calls := c' } : XSt).doC n [.instantiatePattern keys]
 
 /-- a `#Pattern` assertion without hypotheses, translated by `pattern` + `instantiate_notation` -/
-theorem sim_patAssert (cfg : Cfg) (db : DB) (goal : Term) (hnd : db.floats.Nodup)
+theorem sim_patAssert (cfg : Cfg) (db : DB) (goal : Term) (hnd : db.floats.Nodup) (hM : TabMv db.notTab)
     (stack heap : List Stmt) (x : XSt) (t : Term)
     (hvars : ∀ v ∈ Term.vars t, v ∈ db.floats)
     (hinv : Inv db goal stack heap x) (fs st2 : List Stmt)
@@ -415,7 +415,7 @@ theorem sim_patAssert (cfg : Cfg) (db : DB) (goal : Term) (hnd : db.floats.Nodup
     · refine ⟨.inst (image db t) ((db.deltaKeys [t]).zip plugs), rfl, ?_, ?_⟩
       · simp [F0, B0.toF0 _ (image_B0 db t), F0Map_zip _ _ hpF]
       · simp only [NPat.expand]
-        exact image_subst db _ _ t (agrees_mvId db hnd [t] fs plugs hlen hpe _
+        exact image_subst db hM _ _ t (agrees_mvId db hnd [t] fs plugs hlen hpe _
           (fun v hv => ⟨hvars v hv, by simp [Term.varsList, hv]⟩))
     · intro u hu
       show u ∈ s1.memory
@@ -430,7 +430,7 @@ theorem xImp_eq (cfg : Cfg) (n : Nat) (db : DB) (x : XSt) :
       else patThenInst cfg n x (image db (.imp (.var db.impArgs.1) (.var db.impArgs.2)))
         (db.deltaKeys [.imp (.var db.impArgs.1) (.var db.impArgs.2)]) := by
   unfold xImp patThenInst
-  simp only [image]
+  simp only [image_var, image_imp, image_app]
   rfl
 
 theorem xApp_eq (cfg : Cfg) (n : Nat) (db : DB) (x : XSt) :
@@ -440,7 +440,7 @@ theorem xApp_eq (cfg : Cfg) (n : Nat) (db : DB) (x : XSt) :
       else patThenInst cfg n x (image db (.app (.var db.appArgs.1) (.var db.appArgs.2)))
         (db.deltaKeys [.app (.var db.appArgs.1) (.var db.appArgs.2)]) := by
   unfold xApp patThenInst
-  simp only [image]
+  simp only [image_var, image_imp, image_app]
   rfl
 
 theorem xCtor_eq (cfg : Cfg) (n : Nat) (db : DB) (x : XSt) (k : Nat) (c : Ctor)
@@ -515,13 +515,13 @@ theorem sim_imp (cfg : Cfg) (db : DB) (goal : Term) (hwf : db.WF) (stack heap st
   simp only [List.reverse_nil, List.nil_append] at hst
   by_cases hm : db.mandOf [.imp (.var db.impArgs.1) (.var db.impArgs.2)] = [db.impArgs.1, db.impArgs.2]
   · obtain ⟨htp, x', hx', hi⟩ := sim_binary db goal stack heap x db.impArgs.1 db.impArgs.2 hwf.impNe
-      Term.imp NPat.imp .implies (fun _ _ _ => by simp [Term.subst]) (fun _ _ => by simp [image])
+      Term.imp NPat.imp .implies (fun _ _ _ => by simp [Term.subst]) (fun _ _ => by simp [image_imp, image_app])
       (fun _ _ _ _ h1 h2 => by simp [NPat.expand, h1, h2]) (fun _ _ h1 h2 => by simp [NPat.F0, h1, h2])
       (fun s l r st hs => tr_implies 0 s l r false false st hs) hinv fs st2 hst (by rw [hfl, hm]; rfl) hfs
     refine ⟨0, x', ?_, ?_⟩
     · rw [xImp_eq]; simp only [hm, if_true, htp]; exact hx'
     · simp only [hm]; exact hi
-  · obtain ⟨n, x', hx', hi⟩ := sim_patAssert cfg db goal hwf.nodup stack heap x
+  · obtain ⟨n, x', hx', hi⟩ := sim_patAssert cfg db goal hwf.nodup hwf.tabMv stack heap x
       (.imp (.var db.impArgs.1) (.var db.impArgs.2))
       (by intro v hv; simp [Term.vars] at hv; rcases hv with rfl | rfl
           · exact hwf.impMem.1
@@ -540,13 +540,13 @@ theorem sim_app (cfg : Cfg) (db : DB) (goal : Term) (hwf : db.WF) (stack heap st
   simp only [List.reverse_nil, List.nil_append] at hst
   by_cases hm : db.mandOf [.app (.var db.appArgs.1) (.var db.appArgs.2)] = [db.appArgs.1, db.appArgs.2]
   · obtain ⟨htp, x', hx', hi⟩ := sim_binary db goal stack heap x db.appArgs.1 db.appArgs.2 hwf.appNe
-      Term.app NPat.app .app (fun _ _ _ => by simp [Term.subst]) (fun _ _ => by simp [image])
+      Term.app NPat.app .app (fun _ _ _ => by simp [Term.subst]) (fun _ _ => by simp [image_imp, image_app])
       (fun _ _ _ _ h1 h2 => by simp [NPat.expand, h1, h2]) (fun _ _ h1 h2 => by simp [NPat.F0, h1, h2])
       (fun s l r st hs => tr_app 0 s l r false false st hs) hinv fs st2 hst (by rw [hfl, hm]; rfl) hfs
     refine ⟨0, x', ?_, ?_⟩
     · rw [xApp_eq]; simp only [hm, if_true, htp]; exact hx'
     · simp only [hm]; exact hi
-  · obtain ⟨n, x', hx', hi⟩ := sim_patAssert cfg db goal hwf.nodup stack heap x
+  · obtain ⟨n, x', hx', hi⟩ := sim_patAssert cfg db goal hwf.nodup hwf.tabMv stack heap x
       (.app (.var db.appArgs.1) (.var db.appArgs.2))
       (by intro v hv; simp [Term.vars] at hv; rcases hv with rfl | rfl
           · exact hwf.appMem.1
@@ -596,7 +596,7 @@ theorem sim_ctor (cfg : Cfg) (db : DB) (goal : Term) (hwf : db.WF) (stack heap s
         rw [he]; exact List.mem_append_left _ (hinv.memSub u hu)
       · intro u hu
         exact hsf.2.1 u (by rw [he]; exact List.mem_append_right _ hu)
-  · obtain ⟨n, x', hx', hi⟩ := sim_patAssert cfg db goal hwf.nodup stack heap x
+  · obtain ⟨n, x', hx', hi⟩ := sim_patAssert cfg db goal hwf.nodup hwf.tabMv stack heap x
       (.con c.sym (c.args.map .var))
       (by intro v hv; rw [hvars] at hv; exact (hwf.ctors c hcm).2 v hv) hinv fs st2 hst hfl hfs
     refine ⟨n, x', ?_, hi⟩
@@ -684,7 +684,7 @@ theorem sim_p1 (db : DB) (goal : Term) (hwf : db.WF) (stack heap stack' : List S
       have : (db.p1.1 == db.p1.2) = false := by simpa using hwf.p1Ne
       simp [List.idxOf_cons, this]
     simp only [i1, i2] at hd1 hd2
-    simp [prop1N, PySt.phiN, NPat.expand, Py.inst, hd1, hd2, image, Term.subst, hl1, hl2]
+    simp [prop1N, PySt.phiN, NPat.expand, Py.inst, hd1, hd2, image_var, image_imp, image_app, Term.subst, hl1, hl2]
 
 theorem sim_p2 (db : DB) (goal : Term) (hwf : db.WF) (stack heap stack' : List Stmt)
     (x : XSt) (hinv : Inv db goal stack heap x)
@@ -763,7 +763,7 @@ theorem sim_p2 (db : DB) (goal : Term) (hwf : db.WF) (stack heap stack' : List S
     have i2 : [db.p2.1, db.p2.2.1, db.p2.2.2].idxOf db.p2.2.1 = 1 := by simp [List.idxOf_cons, b12]
     have i3 : [db.p2.1, db.p2.2.1, db.p2.2.2].idxOf db.p2.2.2 = 2 := by simp [List.idxOf_cons, b13, b23]
     simp only [i1, i2, i3] at hd1 hd2 hd3
-    simp [prop2N, PySt.phiN, NPat.expand, Py.inst, hd1, hd2, hd3, image, Term.subst, hl1, hl2, hl3]
+    simp [prop2N, PySt.phiN, NPat.expand, Py.inst, hd1, hd2, hd3, image_var, image_imp, image_app, Term.subst, hl1, hl2, hl3]
 
 theorem filter_length_two (l : List Nat) (hl : l.Nodup) (x y : Nat) (hxy : x ≠ y) (hx : x ∈ l)
     (hy : y ∈ l) (p : Nat → Bool) (hp : ∀ v, p v = true ↔ (v = x ∨ v = y)) :
@@ -808,7 +808,7 @@ theorem sim_mp (db : DB) (goal : Term) (hwf : db.WF) (stack heap stack' : List S
   match TE, hE with
   | [t2, t1], hE =>
   obtain ⟨⟨q2, rfl, hq2F, hq2e⟩, ⟨q1, rfl, hq1F, hq1e⟩, _⟩ := hE
-  simp only [Term.subst, if_true, image, NPat.expand] at hq2e hq1e
+  simp only [Term.subst, if_true, image_var, image_imp, image_app, NPat.expand] at hq2e hq1e
   match plugs, (hpl.trans hfl) with
   | [p0, p1], _ =>
   simp only [List.map_cons, List.map_nil, List.reverse_cons, List.reverse_nil, List.nil_append,
@@ -1001,7 +1001,7 @@ theorem sim_rule (db : DB) (goal : Term) (hwf : db.WF) (stack heap stack' : List
       subst hp0
       refine ⟨0, implChain db r.hyps r.concl, (⟨x1.s.push (.proved (implChain db r.hyps r.concl)), x1.calls ++ [.load (.proved (implChain db r.hyps r.concl))], x1.mem⟩ : XSt), by simp only [hemp, if_true], ?_, rfl, hchainF, ?_⟩
       · simp [PySt.push, hx1s]
-      · have := implChain_subst db σ (fun _ => none) r.hyps r.concl (by
+      · have := implChain_subst db hwf.tabMv σ (fun _ => none) r.hyps r.concl (by
           intro v hv; rw [hvl] at hv; simp at hv)
         rw [← this, Py.inst_empty _ (NPat.shape_expand _ (F0.shape _ hchainF))]
     · have hne : db.deltaKeys (r.hyps ++ [r.concl]) ≠ [] := by
@@ -1018,7 +1018,7 @@ theorem sim_rule (db : DB) (goal : Term) (hwf : db.WF) (stack heap stack' : List
         (by simp [DB.deltaKeys, hpl, hfl]) hne hs2
       refine ⟨n3, c, (⟨{ x1.s with stack := (.proved c, false) :: T2.map ent }, (x1.calls ++ [.load (.proved (implChain db r.hyps r.concl))]) ++ [.instantiate (db.deltaKeys (r.hyps ++ [r.concl]))], x1.mem⟩ : XSt), (by simp only [hemp, Bool.false_eq_true, if_false]; exact hc), rfl, rfl, hcF, ?_⟩
       rw [hce, ← hσ]
-      exact implChain_subst db _ _ r.hyps r.concl
+      exact implChain_subst db hwf.tabMv _ _ r.hyps r.concl
         (agrees_mvId db hwf.nodup _ fs plugs hfl hpe _ (fun v hv => ⟨hvarsF v hv, hv⟩))
   obtain ⟨n3, c, x3, hx3, hx3s, hx3m, hcF, hce⟩ := hinst
   -- discharge
